@@ -279,6 +279,7 @@ type Sim struct {
 	cands       []ice.Candidate
 	closedConns map[int]int
 	locals      map[int]ice.Candidate
+	retired     map[int]ice.Candidate // local candidates the agent has released (their sockets are closed)
 	localH      map[string]int
 	remotes     map[int]ice.Candidate
 	conns       map[int]*fakeConn
